@@ -7,11 +7,15 @@ cd "$WT" || exit 2
 git checkout -q -- . ; rm -rf _build
 git apply "$DIFF" || { echo "APPLY-FAILED"; exit 2; }
 /verif/bin/baseline "$WT" ; T=$?
-g++ -std=c++17 -g -O1 -fsanitize=address,undefined -DAMC_NONSTD_FEATURES -I include "$DEMO" -o /tmp/demo.$$ 2>/tmp/demo.$$.log || { echo "DEMO-BUILD-FAILED-WITH-CHANGE"; tail -5 /tmp/demo.$$.log; }
-ASAN_OPTIONS=detect_leaks=0 timeout 120 /tmp/demo.$$ >/dev/null 2>&1; WITH=$?
+SH="${DEMO%.cpp}.sh"
+rundemo() {
+  if [ -f "$SH" ]; then ( cd "$WT" && timeout 900 bash "$SH" >/dev/null 2>&1 ); return $?; fi
+  g++ -std=c++17 -g -O1 -fsanitize=address,undefined -DAMC_NONSTD_FEATURES -I include "$DEMO" -o /tmp/demo.$$ 2>/tmp/demo.$$.log || { echo "DEMO-BUILD-FAILED"; tail -5 /tmp/demo.$$.log; return 99; }
+  ASAN_OPTIONS=detect_leaks=0 timeout 120 /tmp/demo.$$ >/dev/null 2>&1
+}
+rundemo; WITH=$?
 git checkout -q -- .
-g++ -std=c++17 -g -O1 -fsanitize=address,undefined -DAMC_NONSTD_FEATURES -I include "$DEMO" -o /tmp/demo.$$ 2>/tmp/demo.$$.log || echo "DEMO-BUILD-FAILED-CLEAN"
-ASAN_OPTIONS=detect_leaks=0 timeout 120 /tmp/demo.$$ >/dev/null 2>&1; WITHOUT=$?
+rundemo; WITHOUT=$?
 rm -rf _build /tmp/demo.$$ /tmp/demo.$$.log
 echo "tests_rc=$T demo_with_change=$WITH demo_clean=$WITHOUT"
 [ $T -eq 0 ] && [ $WITH -ne 0 ] && [ $WITHOUT -eq 0 ]
